@@ -130,7 +130,8 @@ def c17d(ctx, tu):
                detail="" if ok else "a new tracer must install itself and remember the previously active one")
     for fn in tu.need("trompeloeil::tracer::~tracer"):
         calls = [e for b, e in fn.events() if e["e"] == "call" and qe(e) == A["set_tracer"]]
-        ok = len(calls) == 1 and erase(str(calls[0]["args"][0][1])) == "trompeloeil::tracer::previous"
+        a0 = calls[0]["args"][0] if len(calls) == 1 and calls[0].get("args") else None
+        ok = isinstance(a0, list) and a0[:1] == ["member"] and erase(a0[1]) == "trompeloeil::tracer::previous"
         ctx.ob("C17.d", "trompeloeil::tracer::~tracer", ok, pattern=fn.pat, unit=tu.name,
                detail="" if ok else "a dying tracer must put the previously active tracer (or none) back in effect")
     for fn in tu.need(A["set_tracer"]):
